@@ -64,6 +64,10 @@ func runDo(d *DoComb, sc doScenario) (viol []string, incon string) {
 	for i := range turn {
 		turn[i] = make(chan struct{})
 	}
+	// each turn channel is closed at most once, whether by its predecessor or by the release after a
+	// detected deadlock
+	once := make([]sync.Once, n)
+	closeTurn := func(i int) { once[i].Do(func() { close(turn[i]) }) }
 	pos := make([]int, n)
 	for p, i := range sc.Order {
 		pos[i] = p
@@ -98,7 +102,7 @@ func runDo(d *DoComb, sc doScenario) (viol []string, incon string) {
 			}
 			atomic.StoreInt64(&finishing[i], tick())
 			if pos[i]+1 < n {
-				close(turn[sc.Order[pos[i]+1]])
+				closeTurn(sc.Order[pos[i]+1])
 			}
 			if errs[i] != nil {
 				return 1000 + i, errs[i]
@@ -106,7 +110,7 @@ func runDo(d *DoComb, sc doScenario) (viol []string, incon string) {
 			return 100 + i, nil
 		}
 	}
-	close(turn[sc.Order[0]])
+	closeTurn(sc.Order[0])
 	var vals []int
 	var err error
 	var tRet int64
@@ -145,7 +149,7 @@ func runDo(d *DoComb, sc doScenario) (viol []string, incon string) {
 		}
 		// release everything so that the process can go on
 		for i := range turn {
-			func() { defer func() { recover() }(); close(turn[i]) }()
+			closeTurn(i)
 		}
 		if all {
 			var notStarted []int
